@@ -102,6 +102,21 @@ func getWorld() *world {
 	ledgerkit.InitGlobals()
 	config.DefConfig.P2PNode.EVMChainId = chainID
 	w := &world{dir: ledgerkit.TmpDir("c12")}
+	snap := os.Getenv("C12_SNAP")
+	if snap != "" {
+		if _, err := os.Stat(snap + "/READY"); err == nil { // the setup state, built once per run by the first worker
+			if err := ledgerkit.CopyDir(snap+"/ledger", w.dir); err != nil {
+				panic(err)
+			}
+			k, err := ledgerkit.Open(w.dir, acct(0))
+			if err != nil {
+				panic(err)
+			}
+			w.kit = k
+			theWorld = w
+			return w
+		}
+	}
 	k, err := ledgerkit.Open(w.dir, acct(0))
 	if err != nil {
 		panic(err)
@@ -156,6 +171,20 @@ func getWorld() *world {
 		}
 	}
 	w.mustAdd(setup)
+	if snap != "" {
+		w.kit.Close()
+		os.RemoveAll(snap)
+		os.MkdirAll(snap, 0o755)
+		if err := ledgerkit.CopyDir(w.dir, snap+"/ledger"); err != nil {
+			panic(err)
+		}
+		os.WriteFile(snap+"/READY", []byte("1"), 0o644)
+		k, err := ledgerkit.Open(w.dir, acct(0))
+		if err != nil {
+			panic(err)
+		}
+		w.kit = k
+	}
 	theWorld = w
 	return w
 }
@@ -168,4 +197,11 @@ func (w *world) close() {
 	}
 	w.kit.Close()
 	os.RemoveAll(w.dir)
+}
+
+// the run is over (stdin closed): the snapshot goes too
+func removeSnap() {
+	if snap := os.Getenv("C12_SNAP"); snap != "" {
+		os.RemoveAll(snap)
+	}
 }
